@@ -149,6 +149,18 @@ func runC13(c *Ctx) {
 			if isDir && isRoot && !errNil && ir.IsNilConst(ir.ReturnResult(ret, 0)) {
 				rootSilent = false
 			}
+			errNonNilP := false
+			for _, g := range gs {
+				if g == "nonnil(param:err)" {
+					errNonNilP = true
+				}
+			}
+			if rv := ir.ReturnResult(ret, 0); isDir && isRoot && errNonNilP {
+				if call, ok := rv.(*ssa.Call); ok && scanFnCall(rv) && len(call.Call.Args) == 4 &&
+					call.Call.Args[0] == ssa.Value(cb.Params[0]) && ir.IsNilConst(call.Call.Args[2]) && call.Call.Args[3] == ssa.Value(cb.Params[2]) {
+					rootReported = true
+				}
+			}
 		}
 		gs := c.guardsOf(cb, ret)
 		isDir, isRoot, errNil, errNonNil := false, false, false, false
